@@ -15,8 +15,10 @@ import (
 	"net"
 	"os"
 	"path/filepath"
+	"runtime"
 	"strconv"
 	"sync"
+	"sync/atomic"
 	"testing"
 	"time"
 
@@ -407,6 +409,10 @@ func tlsMethods() []tlsMethod {
 
 // runTLS is the body of C19: one (server configuration, method, credential, target wallet) case per run.
 func runTLS(t *testing.T, rc *RunCtx) {
+	if rc.Param("mode", "") == "conc" {
+		runTLSConc(t, rc)
+		return
+	}
 	InitBLS()
 	w := getTLSWorld(t, rc)
 	methods := tlsMethods()
@@ -711,7 +717,96 @@ func runSourceEdge(t *testing.T, rc *RunCtx) {
 	}
 }
 
+// runTLSConc is the free-running layer of C19: two differently certified clients use the same daemon at the same
+// time over real gRPC/TLS - client-test02 signs with its own wallet continuously while client-test01 keeps asking
+// for a signature (or a listing) of that wallet, which it has no permission for.  Whatever the timing, a caller is
+// served by the subject of its own verified certificate only.  Seeded in its workload, not in its interleaving.
+func runTLSConc(t *testing.T, rc *RunCtx) {
+	InitBLS()
+	w := getTLSWorld(t, rc)
+	ch := rc.Ch
+	// Many clients at once, on few or on all processors: request goroutines run truly in parallel, are preempted
+	// in the middle of their work, and share per-processor caches and pools.
+	prev := runtime.GOMAXPROCS([]int{2, 4, max(8, runtime.NumCPU()), max(8, runtime.NumCPU())}[ch.Pick(4, 0)])
+	defer runtime.GOMAXPROCS(prev)
+	srv := w.withCA
+	owners := 8 + ch.Pick(25, 0)
+	outsiders := 8 + ch.Pick(25, 0)
+	perClient := 100 + 100*ch.Pick(4, 0)
+	useList := ch.Pick(3, 0) == 2
+	var served atomic.Int64
+	var detail atomic.Value
+	var asked, ownOK atomic.Int64
+	stop := make(chan struct{})
+	var wgOwn, wgOut sync.WaitGroup
+	for i := 0; i < owners; i++ {
+		wgOwn.Add(1)
+		go func(i int) {
+			defer wgOwn.Done()
+			cc, err := w.dial(srv, "valid-client-test02")
+			if err != nil {
+				return
+			}
+			defer cc.Close()
+			for u := uint64(0); ; u++ {
+				select {
+				case <-stop:
+					return
+				default:
+				}
+				ctx, cancel := context.WithTimeout(context.Background(), 20*time.Second)
+				r, err := pb.NewSignerClient(cc).Sign(ctx, &pb.SignRequest{Id: &pb.SignRequest_Account{Account: "Wallet 2/Account 0"}, Data: h32("own", i, u), Domain: MkDomain([4]byte{7, 0, 0, 0}, u)})
+				cancel()
+				if err == nil && r.GetState() == pb.ResponseState_SUCCEEDED {
+					ownOK.Add(1)
+				}
+			}
+		}(i)
+	}
+	for i := 0; i < outsiders; i++ {
+		wgOut.Add(1)
+		go func(i int) {
+			defer wgOut.Done()
+			cc, err := w.dial(srv, "valid-client-test01")
+			if err != nil {
+				return
+			}
+			defer cc.Close()
+			for u := 0; u < perClient && served.Load() == 0; u++ {
+				ctx, cancel := context.WithTimeout(context.Background(), 20*time.Second)
+				asked.Add(1)
+				if useList {
+					r, err := pb.NewListerClient(cc).ListAccounts(ctx, &pb.ListAccountsRequest{Paths: []string{"Wallet 2"}})
+					if err == nil && len(r.GetAccounts()) > 0 {
+						served.Add(1)
+						detail.Store(fmt.Sprintf("client-test01 was given a listing of Wallet 2 (%d accounts)", len(r.GetAccounts())))
+					}
+				} else {
+					r, err := pb.NewSignerClient(cc).Sign(ctx, &pb.SignRequest{Id: &pb.SignRequest_Account{Account: "Wallet 2/Account 0"}, Data: h32("out", i, u), Domain: MkDomain([4]byte{7, 0, 0, 0}, uint64(u))})
+					if err == nil && (r.GetState() == pb.ResponseState_SUCCEEDED || len(r.GetSignature()) > 0) {
+						served.Add(1)
+						detail.Store(fmt.Sprintf("client-test01 was given a signature of Wallet 2/Account 0 (state %v)", r.GetState()))
+					}
+				}
+				cancel()
+			}
+		}(i)
+	}
+	wgOut.Wait()
+	close(stop)
+	wgOwn.Wait()
+	rc.Stats.Inc("concurrent_identity_requests", asked.Load())
+	rc.Stats.Inc("concurrent_owner_requests_served", ownOK.Load())
+	rc.Stats.Seen("cases", fmt.Sprintf("tlsconc/%d/%d/%d/%v/%d", owners, outsiders, perClient, useList, rc.Seed))
+	rc.Sample = map[string]any{"layer": "free-running two-client load over TLS", "owners": owners, "outsiders": outsiders, "requests_per_outsider": perClient, "listing": useList}
+	if served.Load() > 0 {
+		d, _ := detail.Load().(string)
+		rc.Violate("C19", "identity-not-taken-from-verified-certificate", fmt.Sprintf("while client-test02 was using the daemon at the same time, after %d requests: %s", asked.Load(), d), 0)
+	}
+}
+
 func init() {
+	noBubble["C19:conc"] = true
 	noBubble["C16:tls"] = true
 	noBubble["C05:edge"] = true
 	propRunners["C19"] = runTLS
